@@ -23,9 +23,9 @@
 # one uses catch-all handlers, and "raise at the end of a handler" - which is done
 # here (variant B) or not needed at all (variant A uses only library features).
 # Confidence: high that this is a genuine defect (a lost signal).
-import sys; sys.path.insert(0, '/tmp/hunt2')
+import sys; sys.path.insert(0, '/repo')
 import usim
-assert usim.__file__.startswith('/tmp/hunt2')
+assert usim.__file__.startswith('/repo')
 from usim import run, time, Scope, until, eternity, instant, Concurrent, Resources
 
 
